@@ -321,7 +321,8 @@ Section Bip32Ser.
       all: injection H as <-; apply Z.eqb_eq in Hk00; subst k0.
       all: split; [reflexivity|split];
         [ apply xkey_wf_intro; unfold xkey_wf_prop; rewrite Hd0, Hfp0, Hc0;
-          repeat split; first [assumption | lia | reflexivity]
+          exact (conj Hd (conj Hlfp (conj Hafp (conj Hc (conj Hlch (conj Hach
+                   (conj (conj Hlk (conj Hak Hsk)) eq_refl)))))))
         | unfold serialize; cbn [x_private x_depth x_fp x_child x_chain x_key];
           rewrite Hser, Hck; reflexivity ].
     - (* public *)
@@ -335,7 +336,8 @@ Section Bip32Ser.
       all: assert (Hk33 : length (k0 :: key) = 33%nat) by (cbn [length]; rewrite Hlk; reflexivity).
       all: split; [reflexivity|split];
         [ apply xkey_wf_intro; unfold xkey_wf_prop; rewrite Hd0, Hfp0, Hc0;
-          repeat split; first [assumption | lia | reflexivity]
+          exact (conj Hd (conj Hlfp (conj Hafp (conj Hc (conj Hlch (conj Hach
+                   (conj (conj Hk33 Hpk) eq_refl)))))))
         | unfold serialize; cbn [x_private x_depth x_fp x_child x_chain x_key];
           rewrite Hser, Hck; reflexivity ].
   Qed.
